@@ -130,7 +130,7 @@ def run(chk):
     nsucc = 0
     for (line, cls, m), a in zip(cases, ri):
         f = a.split(' ')
-        if f[0] != '#1' or len(f) < 3: continue
+        if f[0] != '#1' or len(f) < 3 or f[2].startswith('#'): continue      # '#-1': the reported length exceeds the buffer (already a disagreement)
         nsucc += 1
         pf = bytes.fromhex(f[2]); ex = '-' if not m['extra'] else m['extra'].hex()
         com, g = obj(m['c']), obj(m['g'])
